@@ -30,6 +30,20 @@ trait No { const SEND: bool = false; const SYNC: bool = false; }
 impl<T: ?Sized> No for Probe<T> {}
 impl<T: ?Sized + Send> Probe<T> { const SEND: bool = true; }
 impl<T: ?Sized + Sync> Probe<T> { const SYNC: bool = true; }
+// the same question about a value whose type cannot be named (a search object holding a closure): method resolution
+// prefers the impl on `Wrap<T>` (found without an extra autoref) whenever its bound holds
+struct Wrap<'a, T>(&'a T);
+trait YesSend { fn is_send(&self) -> bool { true } }
+trait NoSend { fn is_send(&self) -> bool { false } }
+impl<'a, T: Send> YesSend for Wrap<'a, T> {}
+impl<'a, 'b, T> NoSend for &'b Wrap<'a, T> {}
+trait YesSync { fn is_sync(&self) -> bool { true } }
+trait NoSync { fn is_sync(&self) -> bool { false } }
+impl<'a, T: Sync> YesSync for Wrap<'a, T> {}
+impl<'a, 'b, T> NoSync for &'b Wrap<'a, T> {}
+fn brow(fl: &str, what: &str, send: bool, sync: bool) {
+    println!("B {fl} {what} send={} sync={}", send as u8, sync as u8);
+}
 fn row(fl: &str, ty: &str, k: &str, n: &str, e: &str, send: bool, sync: bool) {
     println!("{fl} {ty} {k} {n} {e} send={} sync={}", send as u8, sync as u8);
 }
@@ -46,9 +60,48 @@ def gen_probe(root):
             for k, n, e in itertools.product(WIT, WIT, WIT):
                 t = f"gdsl::{fl}::{ty}<{WIT[k]}, {WIT[n]}, {WIT[e]}>"
                 lines.append(f'    row("{fl}", "{ty}", "{k}", "{n}", "{e}", Probe::<{t}>::SEND, Probe::<{t}>::SYNC);')
+    # search objects: with Send + Sync payloads, holding a closure that captured an `Rc<Cell<_>>`
+    lines.append("    // sanity of the value probe")
+    lines.append("    { let a = 1u8; let r = std::rc::Rc::new(1u8); assert!((&Wrap(&a)).is_send() && (&Wrap(&a)).is_sync() && !(&Wrap(&r)).is_send() && !(&Wrap(&r)).is_sync()); }")
+    for fl in FLS:
+        for what, expr in builder_exprs(fl):
+            lines.append("    {")
+            lines.append(f"        use gdsl::{fl}::*;")
+            lines.append("        let n = Node::<usize, i32, i32>::new(0, 0);")
+            lines.append("        let rc = std::rc::Rc::new(std::cell::Cell::new(0));")
+            lines.append("        let mut f = |_e: &Edge<usize, i32, i32>| { rc.set(rc.get() + 1); };")
+            lines.append("        let mut g = |_e: &Edge<usize, i32, i32>| -> bool { rc.set(rc.get() + 1); true };")
+            lines.append(f"        let b = {expr};")
+            lines.append(f'        brow("{fl}", "{what}", (&Wrap(&b)).is_send(), (&Wrap(&b)).is_sync());')
+            lines.append("    }")
     lines.append("}")
     os.makedirs(os.path.join(root, "probes", "src"), exist_ok=True)
     open(os.path.join(root, "probes", "src", "main.rs"), "w").write("\n".join(lines) + "\n")
+
+
+def builder_exprs(fl):
+    di = "di" in fl
+    out = []
+    for k in ("bfs", "dfs", "pfs"):
+        out.append((f"{k}.for_each", f"n.{k}().for_each(&mut f)"))
+        out.append((f"{k}.filter", f"n.{k}().filter(&mut g)"))
+    if di:
+        out.append(("preorder.for_each", "n.preorder().for_each(&mut f)"))
+        out.append(("postorder.filter", "n.postorder().filter(&mut g)"))
+    else:
+        out.append(("order.pre.for_each", "n.order().pre().for_each(&mut f)"))
+        out.append(("order.post.filter", "n.order().post().filter(&mut g)"))
+    return out
+
+
+def builder_witness(fl, what, trait):
+    expr = dict(builder_exprs(fl))[what]
+    return (f"// property C16: a search object of gdsl::{fl} that holds a for_each/filter closure must not be {trait}: the closure\n"
+            f"// may have captured state that is not thread-safe (here an Rc<Cell<i32>>), and moving or sharing the search object\n"
+            f"// would let a second thread reach it. This program compiles although it must be rejected.\n"
+            f"use gdsl::{fl}::*;\nfn need<T: {trait}>(_: &T) {{}}\nfn main() {{\n    let n = Node::<usize, i32, i32>::new(0, 0);\n"
+            f"    let rc = std::rc::Rc::new(std::cell::Cell::new(0));\n    let mut f = |_e: &Edge<usize, i32, i32>| {{ rc.set(rc.get() + 1); }};\n"
+            f"    let mut g = |_e: &Edge<usize, i32, i32>| -> bool {{ rc.set(rc.get() + 1); true }};\n    let b = {expr};\n    need(&b);\n}}\n")
 
 
 BORROWED = "borrowed"
@@ -101,6 +154,7 @@ def custom(C, pid, tier, seed):
         if tier == "thorough":
             envs.append(("hook-off", dict(C.ENV)))
         tables = {}
+        btables = {}
         for name, env in envs:
             rc, out, dt = C.sh(["cargo", "build", "--offline"], cwd=os.path.join(root, "probes"), timeout=1800, env=env)
             if rc != 0 and "src/bin/borrowed.rs" in out:
@@ -115,7 +169,8 @@ def custom(C, pid, tier, seed):
             if rc != 0:
                 broken.append(("correspondence", f"probe binary failed ({name}): {out[-300:]}"))
                 continue
-            tables[name] = [l for l in out.strip().split("\n") if l]
+            tables[name] = [l for l in out.strip().split("\n") if l and not l.startswith("B ")]
+            btables[name] = [l for l in out.strip().split("\n") if l.startswith("B ")]
     for t, why in proofs["failed"]:
         broken.append(("proof", f"theorem {t}: {why}"))
     rows = tables.get("hook-on", [])
@@ -128,6 +183,16 @@ def custom(C, pid, tier, seed):
             for trait, got in (("Send", s1 == "send=1"), ("Sync", s2 == "sync=1")):
                 if got != want:
                     bad_rows.append((fl, ty, k, n, e, trait, want, name))
+    # ---- oracle: search objects holding a closure are never Send or Sync
+    bad_builders = []
+    n_brows = 0
+    for name, tab in btables.items():
+        for l in tab:
+            _, fl, what, s1, s2 = l.split(" ")
+            n_brows += 1
+            for trait, got in (("Send", s1 == "send=1"), ("Sync", s2 == "sync=1")):
+                if got:
+                    bad_builders.append((fl, what, trait, name))
     # ---- correspondence: model table vs rustc table
     mism = []
     n_rows = 0
@@ -165,6 +230,12 @@ def custom(C, pid, tier, seed):
             path = C.write_replay(pid, "oracle", f"rustc {'rejects' if want else 'accepts'} `gdsl::{fl}::{ty}<K: {k}, N: {n}, E: {e}>: {trait}` ({name}); {len(bad_rows)} wrong rows in total", prog.split("\n"), {"flavour": fl, "seed": seed, "tier": tier})
             os.replace(path, path[:-5] + ".rs")
             violations.append((path[:-5] + ".rs", ""))
+    for (fl, what, trait, name) in bad_builders[:2]:
+        path = C.write_replay(pid, "oracle", f"rustc accepts `{trait}` for the gdsl::{fl} search object `{what}` holding a closure that captured an Rc ({name}); {len(bad_builders)} such verdicts in total", builder_witness(fl, what, trait).split("\n"), {"flavour": fl, "seed": seed, "tier": tier})
+        os.replace(path, path[:-5] + ".rs")
+        violations.append((path[:-5] + ".rs", ""))
+    for b in bad_builders:
+        bad_rows.append((b[0], b[1], "-", "-", "-", b[2], False, b[3]))
     if borrowed_bad:
         path = C.write_replay(pid, "oracle", borrowed_bad, borrowed_src, {"seed": seed, "tier": tier})
         os.replace(path, path[:-5] + ".rs")
@@ -177,8 +248,8 @@ def custom(C, pid, tier, seed):
                 "checker_cmd": "python3 tools/translate_traits.py /repo lean/GdslModel/Gen/Traits.lean && cd lean && lake build GdslModel.Props.C16 && lake env lean Audit/C16.lean",
                 "trusted_base": C.P.TRUSTED_BASE + ["translator tools/translate_traits.py (type-grammar parser; fails loudly on unknown constructs)", "transcription of std's auto-trait rules for Arc/Weak/Rc/RefCell/RwLock/Vec/HashMap/tuples (validated against rustc by the probe table)", "Rust's meaning of Send/Sync (the 'no data race' consequence is not modelled)"],
                 "theorems": [t for _, t in spec.get("theorems", [])], "axioms": proofs["axioms"],
-                "evaluations": sum(len(t) for t in tables.values()) * 2, "distinct_nontrivial": len(rows) * 2,
-                "rule": "plus one must-compile program with borrowed (non-'static) Send + Sync payloads for every sync type; rows = 4 flavours x {Node, Edge, Graph} x 4^3 payload witnesses (Send+Sync / Send only = PhantomData<Cell> / Sync only = PhantomData<MutexGuard> / neither = PhantomData<Rc>) x {Send, Sync}; each row is one query to rustc's trait solver, read at run time through an inherent-const probe; all distinct, all non-trivial (a generic obligation each).",
+                "evaluations": (sum(len(t) for t in tables.values()) + n_brows) * 2, "distinct_nontrivial": len(rows) * 2 + 2 * len(btables.get("hook-on", [])),
+                "rule": "plus search objects (bfs/dfs/pfs/orderings of the four flavours, for_each and filter) holding a closure that captured an Rc: never Send or Sync (value probe by method resolution); plus one must-compile program with borrowed (non-'static) Send + Sync payloads for every sync type; rows = 4 flavours x {Node, Edge, Graph} x 4^3 payload witnesses (Send+Sync / Send only = PhantomData<Cell> / Sync only = PhantomData<MutexGuard> / neither = PhantomData<Rc>) x {Send, Sync}; each row is one query to rustc's trait solver, read at run time through an inherent-const probe; all distinct, all non-trivial (a generic obligation each).",
                 "samples": rows[:3] + rows[200:203], "traces_validated_against_impl": n_rows, "exhaustive": True,
                 "correspondence_mismatches": len(mism), "oracle_failures": len(bad_rows), "broken_obligations": [w for _, w in broken],
                 "probe_builds": list(tables.keys())})
